@@ -419,3 +419,29 @@ fn c12_mixed_version_chain() {
     }
     finish(suite, cases);
 }
+
+/// C09 (complete over the eight coins): the genesis hash --verify compares height 0 with is the coin's published one.
+/// Seven of the eight values were written down independently of the repository (and agree with it); noteblockchain's is
+/// pinned from the repository at e72d2b4.
+#[test]
+fn c09_published_genesis_hashes() {
+    use crate::blockchain::parser::types::CoinType;
+    let suite = "c09_published_genesis_hashes";
+    let table = [
+        ("bitcoin", "000000000019d6689c085ae165831e934ff763ae46a2a6c172b3f1b60a8ce26f"),
+        ("testnet3", "000000000933ea01ad0ee984209779baaec3ced90fa3f408719526f8d77f4943"),
+        ("namecoin", "000000000062b72c5e2ceb45fbc8587e807c155b0da735e6483dfba2f0a9c770"),
+        ("litecoin", "12a765e31ffd4059bada1e25190f6e98c99d9714d334efa41a195a7e7e04bfe2"),
+        ("dogecoin", "1a91e3dace36e2be3bf030a65679fe821aa1d6ef92e7c9902eb318182c355691"),
+        ("myriadcoin", "00000ffde4c020b5938441a0ea3d314bf619eff0b38f32f78f7583cffa1ea485"),
+        ("unobtanium", "000004c2fc5fffb810dccc197d603690099a68305232e552d96ccbe8e2c52b75"),
+        ("noteblockchain", "270f3e7b185c412d57ba913d10658df54f15201a67d736cb4071a4ec4eb54836"),
+    ];
+    for (coin, want) in table.iter() {
+        match coin.parse::<CoinType>() {
+            Ok(c) => { check(format!("{}", c.genesis_hash) == *want, suite, "C09:block_0_must_hash_to_the_published_genesis_hash", &format!("--coin {}", coin), &format!("{}", c.genesis_hash), want); }
+            Err(_) => fail(suite, "C09:block_0_must_hash_to_the_published_genesis_hash", &format!("--coin {}", coin), "unknown coin", want),
+        }
+    }
+    finish(suite, table.len());
+}
